@@ -39,12 +39,64 @@ NEED = [
     ("prove_batch", r"^ok$"), ("prove_batch", r"^err:TooFewLeafIndexes"), ("prove_batch", r"^err:TooManyLeafIndexes"),
     ("prove_batch", r"^err:DuplicateLeafIndex"), ("prove_batch", r"^err:LeafIndexOutOfBounds"),
     ("get_root", r"^ok$"), ("get_root", r"^err:InvalidProof"), ("get_root", r"^err:DuplicateLeafIndex"),
-    ("get_root", r"^err:LeafIndexOutOfBounds"), ("get_root", r"^err:TooFewLeafIndexes"),
+    ("get_root", r"^err:LeafIndexOutOfBounds"), ("get_root", r"^err:TooFewLeafIndexes"), ("get_root", r"^err:TooManyLeafIndexes"),
+    ("into_paths", r"^err:TooFewLeafIndexes"), ("into_paths", r"^err:TooManyLeafIndexes"), ("into_paths", r"^err:DuplicateLeafIndex"),
     ("verify_batch", r"^ok$"), ("verify_batch", r"^err:InvalidProof"),
     ("into_paths", r"^ok$"), ("into_paths", r"^err:InvalidProof"), ("into_paths", r"^err:LeafIndexOutOfBounds"),
     ("from_paths", r"^ok$"), ("from_paths", r"^panic"),
     ("ser", r"^ok$"), ("ser", r"^panic"), ("deser", r"^ok$"), ("deser", r"^err"),
 ]
+
+
+# coverage round: named classes of malformed openings (harness stream F) and the error sites they have to reach.
+# The harness re-implements the ORDER of the shape guards of get_root / into_paths (`predict`, no digest involved), names the
+# guard that must answer each case, and compares the implementation's result with it; it prints the counters parsed here.
+REQ_CLASSES = [
+    "leaves-fewer", "leaves-more", "positions-fewer", "positions-more", "pair-dropped", "sibling-dropped-even", "sibling-dropped-odd",
+    "first-node-missing-even", "first-node-missing-odd", "vec-missing", "vec-extra-empty", "vec-extra-full", "level-node-missing",
+    "node-at-known-sibling", "node-surplus", "node-moved", "depth-smaller", "depth-larger", "depth-0", "depth-64plus",
+    "position-out-of-range", "position-duplicated", "positions-none", "positions-256plus", "position-to-sibling", "position-to-other-pair",
+    "deser-vector-count-more", "deser-vector-count-fewer", "deser-digest-count-more", "deser-digest-count-fewer", "deser-truncated",
+    "deser-no-leaves", "deser-256-leaves", "deser-depth-0", "deser-honest",
+]
+LIVE_SITES = ["no-positions", "too-many-positions", "leaf-count", "depth>=64", "position-out-of-range", "position-duplicated", "vector-count",
+              "first-level-right-sibling-missing", "first-level-left-sibling-missing", "upper-level-sibling-missing", "nodes-not-consumed"]
+REQ_SITES = [("get_root", s) for s in LIVE_SITES + ["no-root(depth-0)", "accept"]] + [("into_paths", s) for s in LIVE_SITES + ["accept"]]
+MIN_CLASS, MIN_SITE = 20, 10
+
+
+def _malformed(ctx, profile, lines):
+    classes, sites, bad, bad_total = {}, {}, [], None
+    for l in lines:
+        if l.startswith("F-class "):
+            t = l.split()
+            classes[t[1]] = {"n": int(t[2].split("=")[1]), "aims": t[3].split("=", 1)[1], "sites": t[4].split("=", 1)[1]}
+        elif l.startswith("F-site "):
+            t = l.split()
+            sites[(t[1], t[2])] = {"lines": t[3].split("=", 1)[1], "n": int(t[4].split("=")[1])}
+        elif l.startswith("F-bad-total "):
+            bad_total = int(l.split()[1])
+        elif l.startswith("F-bad {"):
+            try:
+                bad.append(json.loads(l[6:]))
+            except ValueError:
+                pass
+    thin = [f"{c}:{classes.get(c, {}).get('n', 0)}" for c in REQ_CLASSES if classes.get(c, {}).get("n", 0) < MIN_CLASS]
+    ctx.ob(f"malformed-classes-sampled:{profile}", not thin and bad_total is not None,
+           f"classes sampled fewer than {MIN_CLASS} times (name:count): " + ", ".join(thin))
+    ctx.ob(f"malformed-classes-expected-outcome:{profile}", bad_total == 0,
+           f"{bad_total} malformed openings did not end at the predicted guard with the predicted error (or were accepted / panicked): "
+           + json.dumps(bad[:2])[:1500])
+    for b in bad:
+        ctx.add_failure({"what": b.get("what", "malformed-class"), "input": f"class {b.get('class')}: {b.get('input', '')}"[:2000],
+                         "expected": b.get("expected"), "actual": b.get("actual"), "profile": profile})
+    cold = [f"{f}:{s}:{sites.get((f, s), {}).get('n', 0)}" for f, s in REQ_SITES if sites.get((f, s), {}).get("n", 0) < MIN_SITE]
+    ctx.ob(f"error-sites-reached:{profile}", not cold, f"error sites answered fewer than {MIN_SITE} times (function:site:count): " + ", ".join(cold))
+    dead = {f"{f}:{s}": v["n"] for (f, s), v in sites.items() if s.startswith("DEAD-")}
+    ctx.ob(f"dead-branches-never-predicted:{profile}", len(dead) == 10 and not any(dead.values()),
+           "the guard-order oracle ended in a defensive branch that C10_dead_branches_* proves unreachable: " + json.dumps(dead))
+    ctx.notes.setdefault("malformed_classes", {})[profile] = {k: f"n={v['n']} aims={v['aims']} answered-by={v['sites']}" for k, v in classes.items()}
+    ctx.notes.setdefault("error_sites", {})[profile] = {f"{f}:{s}": f"lines={v['lines']} n={v['n']}" for (f, s), v in sites.items()}
 
 
 def _klass(res):
@@ -68,6 +120,9 @@ def _falsify(ctx, hb, profile, budget):
         elif line.startswith("evaluations="):
             summary = line.strip()
             ctx.evaluations += int(line.split()[0].split("=")[1])
+        elif line.startswith("falsifier guards answered") or line.startswith("falsifier malformed classes"):
+            k, v = line.split(":", 1)
+            ctx.notes.setdefault("falsifier", {}).setdefault(profile + ":" + k.replace(" ", "_"), v.strip())
     ctx.ob(f"falsifier-ran:{profile}", rc == 0 and summary != "", out[-300:] if rc else "no summary line")
     ctx.notes.setdefault("falsifier", {})[profile] = {"budget": budget, "reported_failures": nfail, "summary": summary}
 
@@ -82,9 +137,15 @@ def run(ctx):
                 "each position, root) and shape mutation (node removed/added, vector removed/added, leaves shortened/extended, depth in "
                 "{0..d+2,63,64,65,128,255}, truncated/extended/65+-element paths, index swapped/dropped/appended/duplicated/out of range) of those "
                 "openings through verify/get_root/verify_batch/into_paths, malformed from_paths inputs; E serialize_nodes/deserialize incl. every "
-                "truncation. falsifier (independent of the model): naive root recomputation from ALL leaves with 7 hashers (Toy, Blake3_256/192, "
+                "truncation; F named classes of malformed openings (leaves/positions/node vectors too few or too many at the first or an upper "
+                "level, nodes where the sibling is a queried position, empty vector where a sibling is needed, depth smaller/larger/0/>=64, "
+                "positions out of range/duplicated/none/>255/moved, serialized counts inconsistent), each >= 20 times, through get_root, "
+                "into_paths, verify_batch, every case additionally checked against a shape-only re-implementation of the guard order that "
+                "names the error site (each live site answered >= 10 times per function; the 14 defensive branches proved dead never named). "
+                "falsifier (independent of the model): naive root recomputation from ALL leaves with 7 hashers (Toy, Blake3_256/192, "
                 "Sha3_256, Rp64_256, RpJive64_256, Rp62_248): honest openings verify, into_paths = individual proves, from_paths(into_paths)= "
-                "prove_batch, any mutated opening with a wrong claimed leaf/shape/position is rejected, garbage proofs never panic. "
+                "prove_batch, any mutated opening with a wrong claimed leaf/shape/position is rejected, garbage proofs never panic, every mutated / "
+                "malformed-class / garbage opening ends at the guard (error value incl. payload) the shape-only guard-order oracle names. "
                 "distinct = distinct case lines")
     ctx.assumptions += [
         "the hand-written model coq/Model/Merkle.v describes crypto/src/merkle/{mod,proofs}.rs as repaired by fixes/c10-merkle-opening-checks.diff "
@@ -130,6 +191,7 @@ def run(ctx):
                 if not any(k[0] == op and re.match(rx, k[1]) and v > 0 for k, v in hist.items()):
                     missing.append(f"{op}~{rx}")
             ctx.ob(f"corr-reaches-all-outcome-classes:{profile}", not missing, "never produced: " + ", ".join(missing))
+            _malformed(ctx, profile, lines)
             npanic = sum(v for k, v in hist.items() if k[1] == "panic" and k[0] in ("verify", "get_root", "verify_batch", "into_paths", "deser"))
             ctx.ob(f"no-panic-on-openings:{profile}", npanic == 0,
                    f"{npanic} verification calls panicked (property: an error, never acceptance and never a panic)")
@@ -142,5 +204,5 @@ def run(ctx):
         budget = (20000 if quick else 600000) * (3 if ctx.broken() else 1)
         _falsify(ctx, hb, profile, budget)
     ctx.trusted.insert(0, "Coq 8.16.1 kernel; Print Assumptions under every theorem (all closed under the global context)")
-    ctx.trusted.append("harness/src/bin/c10.rs (case generators, mutation catalogue, canonical printing, naive-root oracle) and harness/src/toy.rs = "
+    ctx.trusted.append("harness/src/bin/c10.rs (case generators, mutation catalogue, malformed classes, guard-order oracle `predict`, canonical printing, naive-root oracle) and harness/src/toy.rs = "
                        "coq/Model/ToyHash.v (ToyHasher defined twice)")
